@@ -48,11 +48,11 @@ def is_el(v):
 
 
 def tracked(v):
-    return is_seq(v) and v[1] not in ("EMPTY",)
+    return is_seq(v) and v[1] not in ("EMPTY", "SLOTS")
 
 
 def _has_empty(o):
-    return o == "EMPTY" or (isinstance(o, tuple) and any(_has_empty(x) for x in o))
+    return o in ("EMPTY", "SLOTS") or (isinstance(o, tuple) and any(_has_empty(x) for x in o))
 
 
 def join_order(a, b):
@@ -229,6 +229,19 @@ class OrderFlow(InterFlow):
 
     def store_subscript(self, target, v, env):
         b = path_key(target.value)
+        if b is not None and not isinstance(target.slice, (ast.Constant, ast.Slice)):
+            # scatter by a carried index:  out[i] = res  with i the original
+            # position of res  ==> out is in the order the positions refer to
+            idx = self.eval(target.slice, env)
+            if is_el(idx) and isinstance(idx[1], tuple) and idx[1] and idx[1][0] == "idx":
+                cur = env.get(b, TOP)
+                if is_seq(cur) and cur[1] in ("EMPTY", "SLOTS") or cur == TOP or (is_seq(cur) and cur[1] == idx[1][1]):
+                    env[b] = seq(idx[1][1], v[1] if is_el(v) else "stored")
+                    return
+            cur = env.get(b, TOP)
+            if tracked(cur):
+                env[b] = seq("UNK", cur[2])
+            return
         if b is not None and isinstance(target.slice, ast.Constant):
             key = "%s[%r]" % (b, target.slice.value)
             env[key] = v if v != TOP else ("obj", "stored-value")
@@ -281,6 +294,9 @@ class OrderFlow(InterFlow):
             vals = [self.eval(v, env) for v in e.values]
             d = derived(vals)
             return ("el", d) if d is not None else TOP
+        if isinstance(e, ast.BinOp) and isinstance(e.op, ast.Mult) and isinstance(e.left, ast.List) and len(e.left.elts) == 1 and isinstance(e.left.elts[0], ast.Constant):
+            self.eval(e.right, env)
+            return seq("SLOTS", None)
         if isinstance(e, ast.BinOp):
             l, r = self.eval(e.left, env), self.eval(e.right, env)
             d = derived([l, r])
